@@ -22,12 +22,12 @@ func init() {
 	register(&mc.Prop{
 		ID: "C17",
 		Rule: "explicit-state BFS over configuration histories: operations = create instance (default | both switches), RegisterCodec / RegisterCodecWithTag(flat|custom) for the named type Marker and for its underlying basic type int, on any instance, Use(instance) (run the probe battery early); histories to depth 5 (thorough 6) over at most two instances, states de-duplicated on the model's registration sets; " +
-			"in every state each instance (and the package-level default, and the package functions) runs a battery of 11 probes putting the named type in every position (value, field, *T, []T, map key, map value, field tagged flat / custom, *T tagged, time and string slices for the options). " +
+			"in every state each instance (and the package-level default, and the package functions) runs a battery of 11 probes, in declaration order and - on a second realisation of the same configuration - in reverse order, putting the named type in every position (value, field, *T, []T, map key, map value, field tagged flat / custom, *T tagged, time and string slices for the options). " +
 			"Oracle: bytes equal the model's prediction for that instance only - registered codec where (type, tag) matches, otherwise that instance's codec for the underlying kind (which may itself be a registration of that instance), error where neither exists; other instances and the default are unaffected; package functions == fresh default instance. non-trivial = state with at least one registration",
 		Assumptions: []string{"registrations precede first use of the same instance (what the API documents); a tag on a slice/map field selects the container treatment, not the element codec (comment in codec.go)"},
 		Work:        c17Work,
 		Post: func(a *mc.Agg) []string {
-			return needDims(a, "bfs-state", "probe:value", "probe:tagged-custom", "probe:options", "default-instance", "package-functions", "default-registration")
+			return needDims(a, "bfs-state", "probe:value", "probe:tagged-custom", "probe:options", "default-instance", "package-functions", "default-registration", "probe-order:reverse")
 		},
 	})
 }
@@ -362,6 +362,43 @@ func c17Work(c *mc.Ctx) {
 					for i := range live {
 						if !check(i, "finally,") {
 							return
+						}
+					}
+					// the same configuration realised afresh, probed in the opposite order: what an
+					// instance caches while building one struct must not change what another struct gets
+					var rev []*plenc.Plenc
+					for _, in := range cur.insts {
+						p := NewPlenc(c17Cfgs[in.cfg])
+						var keys []string
+						for k := range in.regs {
+							keys = append(keys, k)
+						}
+						sort.Strings(keys)
+						for _, k := range keys {
+							typ, tag, _ := strings.Cut(k, ":")
+							rt := reflect.TypeOf(gen.Marker(0))
+							if typ == "int" {
+								rt = reflect.TypeOf(int(0))
+							}
+							if tag == "" {
+								p.RegisterCodec(rt, markerCodec{in.regs[k]})
+							} else {
+								p.RegisterCodecWithTag(rt, tag, markerCodec{in.regs[k]})
+							}
+						}
+						rev = append(rev, p)
+					}
+					for i := range rev {
+						for pi := len(probes) - 1; pi >= 0; pi-- {
+							pr := probes[pi]
+							c.Ops(1)
+							got, want := pr.run(rev[i]), pr.want(cur.insts[i].regs, c17Cfgs[cur.insts[i].cfg])
+							c.Dim("probe-order:reverse")
+							if got != want {
+								c.Violation(fmt.Sprintf("bfs|probe-%s-differs-in-reverse-order", pr.name), fmt.Sprintf("history %s; instance #%d probed in reverse order: probe %s gives %s, model %s",
+									strings.Join(hs, "; "), i, pr.name, got, want))
+								return
+							}
 						}
 					}
 					pkgProbe("after-history")
